@@ -48,6 +48,8 @@ def run(ctx):
         # ever asked for, so the id-indexed tables are not sized for it - every index into them is guarded (rule of C04)
         ctx.guard("guarded-index" + tag, c04.guarded_index, ctx, crate, crs, tag)
         ctx.guard("conflict-signal" + tag, c02.conflict_signal, ctx, crate, crs, tag)
+        import core
+        ctx.guard("core" + tag, core.soundness, ctx, crate, crs, tag)      # see rules/core.py
         # the candidate lists the clauses are built from are the provider's (filter flag / map agreement, memoised under the right key)
         import mech
         ctx.guard("candidate-lists" + tag, mech.memo_check, ctx, "candidate-lists", crate, crs, tag)
